@@ -180,6 +180,38 @@ func solveWithSplit(ob *Obligation, timeoutS int, all bool) SolveResult {
 			return rr
 		}
 	}
+	// declared case split of the unit (complete: the cases cover everything)
+	if n := len(ob.exec.caseTerms); n > 0 && n <= 5 {
+		combos := 1 << n
+		res := make([]SolveResult, combos)
+		var wg sync.WaitGroup
+		for m := 0; m < combos; m++ {
+			wg.Add(1)
+			go func(m int) {
+				defer wg.Done()
+				var extra []*Term
+				for i, c := range ob.exec.caseTerms {
+					if m&(1<<i) != 0 {
+						extra = append(extra, c)
+					} else {
+						extra = append(extra, Not(c))
+					}
+				}
+				res[m] = Solve(ob.ScriptWith(extra, nil), timeoutS, false)
+			}(m)
+		}
+		wg.Wait()
+		okAll := true
+		for _, cr := range res {
+			spent += cr.Seconds
+			if cr.Status != "unsat" {
+				okAll = false
+			}
+		}
+		if okAll {
+			return SolveResult{Status: "unsat", Solver: fmt.Sprintf("cases%d", combos), Seconds: spent, All: map[string]string{}}
+		}
+	}
 	r := Solve(ob.Script(nil), first, all)
 	if r.Status == "unsat" || r.Status == "sat" || r.Status == "disagree" {
 		return r
@@ -669,7 +701,39 @@ func cmdCheck(args []string) int {
 			"query_timeout_s":          timeout,
 			"exhaustive":               false,
 		}}
-	addBounded(prop, *tier, seed, &ev)
+	// bounded stand-ins of this property (executed, labelled bounded, never counted as proved)
+	var bounded []BoundedResult
+	for _, spec := range loadBounded() {
+		if spec.Property != prop {
+			continue
+		}
+		br := runBounded(spec, *tier, seed)
+		bounded = append(bounded, br)
+		name := fmt.Sprintf("%s/bounded:%s", prop, spec.Name)
+		if br.OK {
+			continue
+		}
+		if f := isKnown(name); f != nil {
+			fmt.Printf("KNOWN-FINDING: property=%s %s %s\n", prop, name, f.Text)
+			known = append(known, name)
+			continue
+		}
+		ev.Violations++
+		path := filepath.Join(outRoot(), "replay", prop, sanitize("bounded_"+spec.Name)+".json")
+		rep := &Replay{Property: prop, Obligation: name, Kind: "bounded", Clause: spec.What, Status: "failed", Replayed: br.Failures > 0,
+			Note: "bounded stand-in executed on the real code: " + br.Bound, ReplayLog: br.First, Output: br.Output}
+		data, _ := json.MarshalIndent(rep, "", " ")
+		os.WriteFile(path, data, 0o644)
+		suffix := ""
+		if !rep.Replayed {
+			suffix = " no-failing-input-found"
+		}
+		fmt.Printf("VIOLATION property=%s replay=%s obligation=%s status=bounded-check-failed first=%q%s\n", prop, path, name, br.First, suffix)
+	}
+	if len(bounded) > 0 {
+		ev.Coverage["bounded"] = bounded
+		ev.Coverage["known_findings"] = known
+	}
 	os.MkdirAll(filepath.Join(outRoot(), "evidence"), 0o755)
 	data, _ := json.MarshalIndent(ev, "", " ")
 	os.WriteFile(filepath.Join(outRoot(), "evidence", prop+".json"), data, 0o644)
